@@ -305,6 +305,26 @@ fn conformance(args: &Args) -> ! {
                 rep.violation("C15/real-socket-not-removed", "socket path still exists after listen returned", case);
             }
         }
+        // very large idle timeouts (the milliseconds no longer fit 31 / 32 bits): the server must simply keep listening;
+        // these threads cannot be stopped and are abandoned when the engine exits
+        for idle in [2_147_484u64, 4_294_968, 4_294_967 + 2, 8_589_935, 100_000_000] {
+            let a = format!("unix:{}/big{}", dir.path().display(), idle);
+            let (svc, _log) = vts::ts::new_ts();
+            let a2 = a.clone();
+            let h = std::thread::spawn(move || varlink::listen(svc, &a2, &varlink::ListenConfig { idle_timeout: idle, ..Default::default() }).map_err(|e| format!("{:?}", e.kind())));
+            let case = json!({"conformance": "real-time", "scenario": format!("idle{}", idle)});
+            rep.eval(Some(&case.to_string()));
+            std::thread::sleep(Duration::from_millis(1600));
+            if h.is_finished() {
+                rep.violation("C15/real-time-too-early", &format!("listen with idle_timeout {} s returned {:?} within 1.6 s", idle, h.join().ok()), case);
+            } else {
+                let want = solo_reply(&vh::refmodel::Req::new(Kind::Echo, Flag::None, "x").bytes()).0;
+                match talk(&a, &[vh::refmodel::Req::new(Kind::Echo, Flag::None, "x").bytes()]) {
+                    Ok(got) if got == want => {}
+                    other => rep.violation("C15/real-time-result", &format!("a server with idle_timeout {} s does not answer after 1.6 s: {:?}", idle, other.map(|b| b2s(&b))), case),
+                }
+            }
+        }
     }
     rep.finish(args)
 }
